@@ -12,7 +12,7 @@ package proposal
 //@ import configapi "github.com/onosproject/onos-api/go/onos/config/v2"
 
 //@ func (*Reconciler).reconcileAbort
-//@   props C01, C02, C07
+//@   props C01, C02, C04, C07, C11
 //@   probe prevIndex: proposal.Status.PrevIndex
 //@   probe txIndex: proposal.TransactionIndex
 //@   requires r != nil && proposal != nil && proposal.tracked && proposalSnapshotted(proposal) && proposalWellFormed(proposal) && proposalInv(proposal) && proposalKeyed(proposal)
@@ -20,6 +20,9 @@ package proposal
 //@   requires proposal.Status.PrevIndex < proposal.TransactionIndex
 //@   ensures {C01,C02} aborted-advances-both: old(proposal.Status.Phases.Abort.State) == configapi.ProposalAbortPhase_ABORTING && proposal.Status.Phases.Abort.State == configapi.ProposalAbortPhase_ABORTED ==> storedCfgCommitted >= proposal.TransactionIndex && storedCfgApplied >= proposal.TransactionIndex
 //@   ensures {C01} abort-writes-no-values: cfgValueWrites == old(cfgValueWrites) && cfgCreates == old(cfgCreates)
+// an abort moves each index of the configuration only from its predecessor's index to its own: it never overtakes an
+// earlier change that is still waiting to be committed or applied
+//@   ensures {C02,C04,C11} abort-never-overtakes: cfgStatusWrites > old(cfgStatusWrites) ==> (storedCfgApplied != readCfgApplied ==> readCfgApplied == proposal.Status.PrevIndex && storedCfgApplied == proposal.TransactionIndex) && (storedCfgCommitted != readCfgCommitted ==> readCfgCommitted == proposal.Status.PrevIndex && storedCfgCommitted == proposal.TransactionIndex)
 // recovery after a crash between the configuration write and the proposal write of the abort step
 //@   ensures {C07} abort-completes-once-indexes-passed: old(proposal.Status.Phases.Abort.State) == configapi.ProposalAbortPhase_ABORTING && readCfgOK && readCfgCommitted >= proposal.TransactionIndex && readCfgApplied >= proposal.TransactionIndex && err == nil ==> proposal.Status.Phases.Abort.State == configapi.ProposalAbortPhase_ABORTED
 
